@@ -128,3 +128,51 @@ Proof.
   - split; [vm_compute; reflexivity|]. split; [vm_compute; reflexivity|]. split; [vm_compute; reflexivity|].
     split; [exact Hrun|vm_compute; reflexivity].
 Qed.
+
+(* ---------- arrays ---------- *)
+Theorem backends_agree_oob_typed pr M fuel out :
+  wt pr = true -> compile_program pr = Some M -> small_program pr -> fuel_small fuel -> depth_ok M ->
+  se_program pr = true -> cc_refuses pr = false ->
+  run_ref fuel pr = Faulted FOob out ->
+  (exists fv, run_vm fv M = VError EOob out) /\ (exists fn, run_nat RtoL fn pr = NFaulted NFOob out).
+Proof.
+  intros Hwt Hc Hs Hf Hd Hse Hcc Hr.
+  apply (backends_agree_oob pr M fuel out Hc Hs Hf Hd Hse Hcc); [|exact Hr].
+  intros fuel'. apply nat_wt_sound. exact Hwt.
+Qed.
+
+(* the array program of VmSimExamples (global array, array parameter and result, at / array_length / printing) *)
+Example backends_agree_typed_arrays : exists M,
+  wt ex_arr = true /\ compile_program ex_arr = Some M /\ small_program ex_arr /\ fuel_small 200 /\ depth_ok M /\
+  se_program ex_arr = true /\ cc_refuses ex_arr = false /\
+  run_ref 200 ex_arr = Done [50; 10; 91; 53; 44; 32; 54; 44; 32; 55; 93; 10; 53; 10; 54; 10; 55; 10] 11 /\
+  run_vm 5000 M = VDone [50; 10; 91; 53; 44; 32; 54; 44; 32; 55; 93; 10; 53; 10; 54; 10; 55; 10] 11 /\
+  run_nat RtoL 200 ex_arr = NDone [50; 10; 91; 53; 44; 32; 54; 44; 32; 55; 93; 10; 53; 10; 54; 10; 55; 10] 11.
+Proof.
+  destruct (compile_program ex_arr) as [M|] eqn:E; [|vm_compute in E; discriminate E].
+  exists M.
+  assert (Hrun : run_vm 5000 M = VDone [50; 10; 91; 53; 44; 32; 54; 44; 32; 55; 93; 10; 53; 10; 54; 10; 55; 10] 11).
+  { vm_compute in E. injection E as <-. vm_compute. reflexivity. }
+  split; [vm_compute; reflexivity|]. split; [reflexivity|]. split; [exact ex_arr_small|].
+  split; [unfold fuel_small; lia|]. split.
+  - apply (depth_ok_of_run M 5000); [rewrite Hrun; discriminate|intros o; rewrite Hrun; discriminate].
+  - split; [vm_compute; reflexivity|]. split; [vm_compute; reflexivity|]. split; [vm_compute; reflexivity|].
+    split; [exact Hrun|vm_compute; reflexivity].
+Qed.
+
+Example backends_agree_oob_typed_satisfiable : exists M,
+  wt ex_oob = true /\ compile_program ex_oob = Some M /\ small_program ex_oob /\ fuel_small 100 /\
+  depth_ok M /\ se_program ex_oob = true /\ cc_refuses ex_oob = false /\
+  run_ref 100 ex_oob = Faulted FOob [49; 10] /\
+  run_vm 500 M = VError EOob [49; 10] /\ run_nat RtoL 100 ex_oob = NFaulted NFOob [49; 10].
+Proof.
+  destruct (compile_program ex_oob) as [M|] eqn:E; [|vm_compute in E; discriminate E].
+  exists M.
+  assert (Hrun : run_vm 500 M = VError EOob [49; 10]).
+  { vm_compute in E. injection E as <-. vm_compute. reflexivity. }
+  split; [vm_compute; reflexivity|]. split; [reflexivity|]. split; [exact ex_oob_small|].
+  split; [unfold fuel_small; lia|]. split.
+  - apply (depth_ok_of_run M 500); [rewrite Hrun; discriminate|intros o; rewrite Hrun; discriminate].
+  - split; [vm_compute; reflexivity|]. split; [vm_compute; reflexivity|]. split; [vm_compute; reflexivity|].
+    split; [exact Hrun|vm_compute; reflexivity].
+Qed.
